@@ -45,7 +45,7 @@ FUNC_NAME = {'ipv4': 'is_valid_ipv4', 'ipv4s': 'is_valid_ipv4(strict=True)', 'ip
              'ip': 'is_valid_ip', 'cidr': 'is_valid_cidr', 'cidr6': 'is_valid_ipv6_cidr',
              'mac': 'is_valid_mac', 'port': 'is_valid_port', 'icmp_type': 'is_valid_icmp_type',
              'icmp_code': 'is_valid_icmp_code'}
-REQUIRED_CLAUSES = (['documented-keyword-call', 'subclass-of-int-or-str-argument', 'answers-rather-than-raises', 'stdlib-agreement', 'scope-length-limit',
+REQUIRED_CLAUSES = (['concurrent-calls-answer-as-alone', 'documented-keyword-call', 'subclass-of-int-or-str-argument', 'answers-rather-than-raises', 'stdlib-agreement', 'scope-length-limit',
                      'range-end-int', 'range-end-str', 'oracle-self-check'] +
                     ['must-accept:' + FUNC_NAME[v] for v in VALIDATORS] +
                     ['must-reject:' + FUNC_NAME[v] for v in VALIDATORS])
@@ -64,6 +64,7 @@ ASSUMPTIONS = [
     'a scope id is over-long above 15 characters (IFNAMSIZ-1), the limit the statement refers to',
 ]
 INTERPRETER_FLAGS = [[], ['-O'], [], ['-bb']]
+CONCURRENT = lambda case: True          # pure functions of their arguments; see vlib/concurrent.py
 SHARDS = {'quick': 4, 'thorough': 16}
 MIN_DISTINCT = {'quick': 20000, 'thorough': 400000}
 
@@ -139,6 +140,8 @@ def prefix_kind(p):
         return 'canon'
     if CANON_NEG.match(p):
         return 'neg'
+    if p.isascii() and p.isdigit():
+        return 'lz'                     # ASCII digits with leading zeros ('08', '064'): the standard library reads them as 8, 64
     if not p.isascii() or all(ch in PREFIX_ZONE for ch in p):
         return 'spelling'
     return 'junk'
@@ -406,6 +409,8 @@ def cidr_classes(c):
         k = 'D'
     elif kind == 'spelling':
         k = 'D'
+    elif kind == 'lz':
+        k = 'A' if (len(p) <= 12 and int(p) <= mx) else ('R' if len(p) <= 12 else 'D')
     else:
         k = 'A' if canon_int(p) <= mx else 'R'
     out['cidr'] = k
@@ -954,6 +959,17 @@ LONGS = [('x', 100000), ('1', 5000), ('1.', 3000), (':', 10000), ('a:', 5000), (
          (' ', 5000), ('٣', 3000), ('é', 9000), ('/', 9000), ('1.2.3.4/', 500), ('::', 4000), ('0:', 8),
          ('_1', 3000), ('+', 2000), ('-', 2000), ('e', 16), ('e', 4000)]
 
+
+
+def HAMMER(ctx):
+    from oslo_utils import netutils as nu
+    out = []
+    for f, vals in ((nu.is_valid_ipv4, ('10.0.0.1', '256.1.1.1', '1.2.3', '0.0.0.0')), (nu.is_valid_ipv6, ('::1', 'fe80::1%eth0', '1::2::3', 'fe80::1%' + 'e' * 16)),
+                    (nu.is_valid_cidr, ('10.0.0.0/8', '10.0.0.0/33', '::/0', '10.0.0.0')), (nu.is_valid_mac, ('52:54:00:cf:2d:31', '52:54:00:cf:2d', 'zz:54:00:cf:2d:31')),
+                    (nu.is_valid_port, ('0', '65535', '65536', 80, -1))):
+        for v in vals:
+            out.append(('%s(%r)' % (f.__name__, v), lambda g=f, t=v: g(t)))
+    return out
 
 def run(ctx):
     idx = 0
